@@ -107,7 +107,7 @@ def one_update(world, prefix, op, counters, digests, violations, known, rng, sam
     post_defs = defs_of(ls.runner.mgr)
     got = {k: canon(v) for k, v in ls.runner.contents().items()}
     if got != expected:
-        if kf.is_open("KF1", ID) and mgrmon.has_structural_cycle(ls.runner.mgr):
+        if kf.is_open("KF1", ID) and mgrmon.shadow_structural_cycle(sh, ls.runner):
             known.append(kf.known("KF1"))
         else:
             violations.append({"what": "C18 fault-free reference run disagrees with the shadow (C01 oracle)",
